@@ -155,8 +155,12 @@ func (r *treeRun) compare(a, b Key) int {
 			d = -(1 << 30)
 		}
 		return int(d)
-	case 2:
-		return c * (1<<31 - 1)
+	case 2: // the extreme values of int
+		if c < 0 {
+			return math.MinInt
+		} else if c > 0 {
+			return math.MaxInt
+		}
 	}
 	return c
 }
